@@ -127,6 +127,19 @@ Lemma ex_rec_hyps :
   /\ validb e (apply_writes e [(2, 15)] [(0, 12); (1, 12); (2, 12)]) = false.
 Proof. vm_compute. repeat split. Qed.
 
+(* adjustByCPUSet on a valid, NON-homogeneous subtree with a fresh executor (root 0-7, pod 0-7,
+   container 0-1, 8 processors, 2 cpus wanted): old is the root's cpuset, so the loosening pass never
+   narrows anything; taking old from the narrowest container (seeded mutant C12-m6) would first write
+   0-1 into the root *)
+Lemma ex_adj :
+  let e := mkEnv 0 [(0, 0); (1, 0); (2, 0)] [(1, 0); (2, 1)] in
+  let fs := [(0, 255); (1, 255); (2, 3)] in
+  adj_new 255 2000 255 = 3
+  /\ be_hyps e fs [0; 1; 2] 255 3 = true
+  /\ snd (step_op e (mkSt fs []) (OAdj [0; 1; 2] 255 2000)) = [(2, 255); (2, 3); (1, 3); (0, 3)]
+  /\ validb e (apply_writes e [(0, 3)] fs) = false.
+Proof. vm_compute. repeat split. Qed.
+
 (* non-vacuity: the hypotheses hold on concrete histories with merges, narrowing, an expiry *)
 Definition ex_env : env := mkEnv 0 [(0, 0); (1, 2); (2, 0); (3, 2); (4, 0); (5, 2)] [(2, 0); (3, 1); (4, 2); (5, 3)].
 Definition ex_fs : fmap := [(0, 3); (1, 100); (2, 3); (3, 50); (4, 1); (5, 50)].
